@@ -4,8 +4,15 @@ Runtime monitoring: the real builders (``BootImageV20`` / ``BootImageV21`` objec
 ``nxpimage sb21 export``) are driven with generated section / command lists, keys, nonces and certificate chains;
 every exported file is handed to the independent ROM model ``vf.refs.sb2_rom`` (same KEK) whose decoded header
 values, sections and commands are compared field by field with what was supplied; SPSDK's own ``parse`` is compared
-with what the ROM model read from the same bytes; then the file is re-parsed with a wrong KEK and with single-byte
-corruptions in every region.  One case = one file.
+with what the ROM model read from the same bytes; then the file is re-read (model and SPSDK parser) with a wrong KEK, with
+a single-byte corruption in every region and with a checksum-preserving swap of two command-header bytes (CTR malleability:
+only the MACs can notice).  One case = one file.
+
+Mechanism keys: sb2-load-count-padded (known finding, directed witness), sb2-header-component-version-from-product-version,
+sb21-sha-flag-{certblock-image-length,first-boot-tag-block,image-blocks}-omits-digest, sb21-parse-only-first-section,
+sb21-parse-flags-from-constructor-default, sb2-ctr-counter-word-overflow (all repaired in /repo, witnesses stay as regression
+cases); everything else is keyed by what disagreed: rom-reject:<model code>, rom-issue:<code>, rom-header-mismatch:<field>,
+rom-command-mismatch:<kind>:<fields>, rom-load-mismatch:<field>, parse-*, parse-accepts-corruption:<region>, cli-*.
 """
 from __future__ import annotations
 
@@ -27,7 +34,9 @@ RULE = (
     "HMAC-table sizes 1..12, product != component versions, build numbers, flags 0x0008 / 0x8008, timestamps, random and edge "
     "DEK/MAC/nonce/KEK (nonce counter word within a few blocks of 2^32), RSA-2048/3072/4096 chains of depth 1..3 with 1..4 root "
     "key hashes and any used slot; API path, configuration path (YAML -> load_from_config) and CLI path (nxpimage sb21 export / "
-    "parse under CliRunner).  Non-trivial = the file was exported and the ROM model was run on it.  Signature = (path, version, "
+    "parse under CliRunner).  Each file is re-read ~30 times: wrong KEK, one corrupted byte per region (header fields, header MAC, key blob, "
+    "certificate block parts, digest, signature, every section's tag header / HMACs / cipher text) and one checksum-preserving byte swap per "
+    "section.  Non-trivial = the file was exported and the ROM model was run on it.  Signature = (path, version, "
     "sections, chain depth, key size, SHA flag, command kinds)."
 )
 ASSUMPTIONS = [
@@ -45,7 +54,7 @@ REQUIRED_COUNTERS = [
     "neg_wrong_kek", "neg_model_rejected", "neg_spsdk_judged", "cfg_exports", "cli_exports", "witness_load_count",
 ]
 CASE_TIMEOUT_S = 300
-WATCHDOG_S = {"quick": 900, "thorough": 5400}
+WATCHDOG_S = {"quick": 1200, "thorough": 7200}
 
 EPOCH_2000 = 946684800
 MEM_IDS = [0, 0, 0, 1, 4, 8, 9, 0xA, 0xB, 0x10, 0x100, 0x101, 0x110, 0x111, 0x120, 0x121]
@@ -79,7 +88,7 @@ def cases(tier, seed):
     yield {"kind": "witness", "what": "sha-flag"}
     yield {"kind": "witness", "what": "parse-flags"}
     yield {"kind": "witness", "what": "counter-wrap"}
-    n_api = 7600 if tier == "thorough" else 270
+    n_api = 4000 if tier == "thorough" else 270  # measured: ~0.2 s CPU per file incl. ~30 corrupted re-reads
     n_cfg = 240 if tier == "thorough" else 16
     n_cli = 160 if tier == "thorough" else 10
     for k in range(n_api):
@@ -806,7 +815,7 @@ def negative_phase(ctx, spec, data, r, pristine, tag):
             ctx.count("neg_wrong_kek")
         spsdk_judge(data, bytes(kek), "kek", "kek")
     # corruption
-    per_region = 2 if ctx.tier == "thorough" else 1
+    per_region = 1
     n_model = 0
     for name, a, b, auth in regions_of(spec, r, len(data)):
         for _ in range(per_region):
